@@ -23,7 +23,7 @@ ChunkSeqs == SeqsUpTo(MaxChunks) \ {<<>>}
 Cfg(mode, ch, ex, bu, bf) == [mode |-> mode, chunks |-> ch, size |-> SumSeq(ch), existed |-> ex, buffered |-> bu,
                               buildFirst |-> bf]
 PathCfgs == {Cfg("path", ch, ex, i[1], i[2]) : ch \in ChunkSeqs, ex \in BOOLEAN, i \in {<<TRUE, FALSE>>, <<FALSE, TRUE>>}}
-SinkCfgs == {Cfg("sink", ch, FALSE, FALSE, FALSE) : ch \in ChunkSeqs}
+SinkCfgs == {Cfg("sink", ch, FALSE, FALSE, FALSE) : ch \in {s \in ChunkSeqs : PlanMode = "any" \/ SumSeq(s) <= 4}}
 
 (* the number of write calls a fault-free save of c makes is at most this *)
 MaxWrites(c) == Len(c.chunks) + 1
